@@ -32,4 +32,7 @@ def run(check):
     from ..rules_escape import rule_sphinx_unchanged_pair
     from ..rules_visitor import rule_scope_chain_lookups
     check.run_rule('C07.R7', lambda c: rule_scope_chain_lookups(c, 'C07.R7'))
+    from ..rules_escape import rule_retrieval_inside_window, rule_repr_robust
+    check.run_rule('C07.R8', lambda c: rule_retrieval_inside_window(c, 'C07.R8'))
+    check.run_rule('C07.R8b', lambda c: rule_repr_robust(c, 'C07.R8'))
     check.run_rule('C07.R5b', lambda c: rule_sphinx_unchanged_pair(c, 'C07.R5'))
